@@ -5,9 +5,10 @@ namespace SqlglotModel.Schema
 open SqlglotModel.Ident
 
 /-- the invariant: the trie holds exactly the mapping's paths and every cache entry equals the uncached answer -/
-structure Inv (S : St) : Prop where
+structure Inv (E : Env) (S : St) : Prop where
   trie_eq : S.trie = S.mapping.map (fun p => p.1.reverse)
-  coherent : ∀ k v, lookup S.cache k = some v → ∀ raise, findUncached S k.1 raise = .found v
+  coherent : ∀ k v, lookup S.cache k = some v →
+    ∃ v', v = convCols E k.2 v' ∧ ∀ raise, findUncached S k.1 raise = .found v'
 
 theorem findInTrie_parts_raise {trie parts r ps} (h : findInTrie trie parts r = .parts ps) (r' : Bool) :
     findInTrie trie parts r' = .parts ps := by
@@ -37,24 +38,29 @@ theorem findU_found_raise {m tr t r v} (h : findU m tr t r = .found v) (r' : Boo
     | some cols => simpa [hL] using h
     | none => cases r <;> simp [hL] at h
 
-theorem find_snd (S : St) (hS : Inv S) (t : List Ident) (r e : Bool) :
-    (find S t r e).2 = findUncached S t r := by
+/-- the answer of `find(ensure_data_types=e)` computed without any cache -/
+def convR (E : Env) (e : Bool) : FindR → FindR
+  | .found c => .found (convCols E e c)
+  | r => r
+
+theorem find_snd (E : Env) (S : St) (hS : Inv E S) (t : List Ident) (r e : Bool) :
+    (find E S t r e).2 = convR E e (findUncached S t r) := by
   unfold find
   cases hc : lookup S.cache (t, e) with
   | some cols =>
-    have := hS.coherent (t, e) cols hc r
-    simp [this]
+    obtain ⟨v', hv, hf⟩ := hS.coherent (t, e) cols hc
+    simp [hf r, convR, hv]
   | none =>
-    cases hf : findUncached S t r <;> simp
+    cases hf : findUncached S t r <;> simp [convR]
 
-theorem find_mapping (S : St) (t : List Ident) (r e : Bool) :
-    (find S t r e).1.mapping = S.mapping ∧ (find S t r e).1.trie = S.trie := by
+theorem find_mapping (E : Env) (S : St) (t : List Ident) (r e : Bool) :
+    (find E S t r e).1.mapping = S.mapping ∧ (find E S t r e).1.trie = S.trie := by
   unfold find
   cases hc : lookup S.cache (t, e) with
   | some cols => simp
   | none => cases hf : findUncached S t r <;> simp
 
-theorem find_inv (S : St) (hS : Inv S) (t : List Ident) (r e : Bool) : Inv (find S t r e).1 := by
+theorem find_inv (E : Env) (S : St) (hS : Inv E S) (t : List Ident) (r e : Bool) : Inv E (find E S t r e).1 := by
   unfold find
   cases hc : lookup S.cache (t, e) with
   | some cols => simpa using hS
@@ -64,19 +70,21 @@ theorem find_inv (S : St) (hS : Inv S) (t : List Ident) (r e : Bool) : Inv (find
     | err x => simpa using hS
     | found cols =>
       refine ⟨hS.trie_eq, ?_⟩
-      intro k v hk raise
+      intro k v hk
       simp only [lookup] at hk
       by_cases hkk : (t, e) = k
       · simp [hkk] at hk
         subst hk
+        refine ⟨cols, by rw [← hkk], ?_⟩
+        intro raise
         have : findUncached S t raise = .found cols := findU_found_raise hf raise
         rw [← hkk]
         simpa [findUncached] using this
       · simp [hkk] at hk
-        have := hS.coherent k v hk raise
-        simpa [findUncached] using this
+        obtain ⟨v', hv, hf'⟩ := hS.coherent k v hk
+        exact ⟨v', hv, fun raise => by simpa [findUncached] using hf' raise⟩
 
-theorem fresh_inv (S : St) : Inv (fresh S) :=
+theorem fresh_inv (E : Env) (S : St) : Inv E (fresh S) :=
   ⟨rfl, by intro k v h; simp [fresh, lookup] at h⟩
 
 theorem mem_map_fst_dictSet {α β} [DecidableEq α] (l : List (α × β)) (a : α) (b : β) :
